@@ -109,6 +109,12 @@ func (m *monRoll) TaskEnd(s *Sim, t *Task) {
 	if !v.Full() || v.EDS == nil || v.ERS == nil {
 		return
 	}
+	for _, c := range v.PodPatches {
+		// label clean-up after a promotion concerns the replica set's own former canary pods
+		if p := podOfCall(c); p != nil && c.Applied() && p.Labels[edsv1.ExtendedDaemonSetReplicaSetNameLabelKey] != v.ERS.Name && isDaemonPod(p, v.EDS.Namespace, v.EDS.Name) {
+			s.Violate("C04", "M5", "foreign-label-patch", "%s (%s) patched pod %s, which belongs to replica set %s", t.Label(), v.Role(), p.Name, p.Labels[edsv1.ExtendedDaemonSetReplicaSetNameLabelKey])
+		}
+	}
 	f := facts(v)
 	ru := v.EDS.Spec.Strategy.RollingUpdate
 	ann := v.EDS.Annotations
